@@ -104,8 +104,9 @@ public class JMon {
       if (cerr) { violation("c19:" + name + ":java-returns-where-c-fails", "C reports an error, Java returned " + Arrays.toString(jv), wit); continue; }
       if (ex != null) { violation("c19:" + name + ":java-throws-where-c-succeeds", "C returned " + cv[0] + ", Java threw " + ex, wit); continue; }
       boolean ok = true;
+      double extra = (fn == 1004 || fn == 1005) ? 5e-9 * scale(s) : 0.0;     /* structure factors cancel: tolerance relative to the size of the terms */
       for (int j = 0; j < nv && ok; j++) {
-        if (!close(cv[j], jv[j])) { ok = false; violation("c19:" + name + ":different-value", "C=" + cv[j] + " Java=" + jv[j] + " (component " + j + ")", wit); }
+        if (!close(cv[j], jv[j]) && !(Math.abs(cv[j] - jv[j]) <= extra)) { ok = false; violation("c19:" + name + ":different-value", "C=" + cv[j] + " Java=" + jv[j] + " (component " + j + ")", wit); }
         else if (cv[j] != 0 && !Double.isNaN(cv[j])) { double rel = Math.abs(cv[j] - jv[j]) / Math.abs(cv[j]); if (rel > worstRel) { worstRel = rel; worstWhere = wit; } }
       }
       if (ok && useAux && (int) jv[nv] != caux) { ok = false; violation("c19:" + name + ":different-object", "C aux=" + caux + " Java=" + (int) jv[nv], wit); }
@@ -122,5 +123,8 @@ public class JMon {
   }
 
   static final Map<String, Crystal_Struct> crystals = new HashMap<>();
-  static Crystal_Struct cr(String name) { if (name == null) return null; return Xraylib.Crystal_GetCrystal(name); }
+  /* the C build stores its built-in crystal table in single precision: compare against the same rounded data */
+  static Crystal_Struct cr(String name) { if (name == null) return null; Crystal_Struct c = crystals.get(name);
+    if (c == null) { c = XvCrystals.floatRounded(Xraylib.Crystal_GetCrystal(name)); crystals.put(name, c); } return c; }
+  static double scale(String name) { Crystal_Struct c = crystals.get(name); double s = 0; if (c != null) for (Crystal_Atom a : c.atom) s += Math.abs(a.fraction * a.Zatom); return s; }
 }
